@@ -19,6 +19,11 @@ def lconst(c):
     return {'': c} if c else {}
 
 
+def is_iter_type(t):
+    """Random-access iterator of a standard contiguous container (vector / string / array)."""
+    return bool(t) and ('__normal_iterator' in t or t.rstrip().endswith('iterator') or 'const_iterator' in t)
+
+
 class PtrNorm(object):
     def __init__(self, keys, env=None):
         self.keys = keys          # Keys instance (for folding and base keys)
@@ -32,12 +37,16 @@ class PtrNorm(object):
         if v is not None and not (x.get('type', {}).get('qualType', '').endswith('*')):
             return ('int', None, lconst(v))
         k = x.get('kind')
+        if k in ('CXXConstructExpr', 'MaterializeTemporaryExpr', 'CXXBindTemporaryExpr', 'ExprWithCleanups', 'CXXFunctionalCastExpr'):
+            ks_ = [a for a in kids(x) if a.get('kind') != 'CXXDefaultArgExpr']
+            if len(ks_) == 1:
+                return self.norm(ks_[0])         # copy / conversion of an iterator or pointer value
         if k == 'DeclRefExpr':
             i = (x.get('referencedDecl') or {}).get('id')
             if i in self.env:
                 return self.env[i]
             t = (x.get('type') or {}).get('qualType', '')
-            if t.endswith('*') or t.endswith('* const'):
+            if t.endswith('*') or t.endswith('* const') or is_iter_type(t):
                 return None
             return ('int', None, {self.keys.key(x): 1})
         if k == 'UnaryOperator':
@@ -80,6 +89,18 @@ class PtrNorm(object):
             if ra is not None and ra[0] == 'ptr':
                 return ('elem', ra[1], ladd(ra[2], rb[2]))
             return ('elem', self.keys.key(a), rb[2])
+        if k == 'CXXMemberCallExpr':
+            # iterators of a contiguous container:  c.begin() = &c[0],  c.end() = &c[0] + c.size()
+            c = callee(x)
+            if c and c[0] == 'method' and c[2] is not None and not call_args(x) and is_iter_type(x.get('type', {}).get('qualType', '')):
+                base = self.keys.key(c[2])
+                if c[1] in ('begin', 'cbegin'):
+                    return ('ptr', base, {})
+                if c[1] in ('end', 'cend'):
+                    return ('ptr', base, {'%s.size()' % base: 1})
+            if c and c[0] == 'method' and c[1] == 'data' and c[2] is not None and not call_args(x):
+                return ('ptr', self.keys.key(c[2]), {})
+            return None
         if k == 'CXXOperatorCallExpr':
             c = callee(x)
             args = call_args(x)
@@ -88,7 +109,28 @@ class PtrNorm(object):
                 rb = self.norm(args[1])
                 if rb is None or rb[0] != 'int':
                     return None
+                ra = self.norm(args[0]) if is_iter_type((peel(args[0]).get('type') or {}).get('qualType', '')) else None
+                if ra is not None and ra[0] == 'ptr':
+                    return ('elem', ra[1], ladd(ra[2], rb[2]))
                 return ('elem', self.keys.key(args[0]), rb[2])
+            if args and is_iter_type((peel(args[0]).get('type') or {}).get('qualType', '')) or \
+                    (len(args) == 2 and is_iter_type((peel(args[1]).get('type') or {}).get('qualType', ''))):
+                ra = self.norm(args[0])
+                rb = self.norm(args[1]) if len(args) == 2 else None
+                if nm == 'operator*' and len(args) == 1 and ra is not None and ra[0] == 'ptr':
+                    return ('elem', ra[1], ra[2])
+                if nm in ('operator+', 'operator-') and len(args) == 2 and ra is not None and rb is not None:
+                    sg = 1 if nm == 'operator+' else -1
+                    if ra[0] == 'ptr' and rb[0] == 'int':
+                        return ('ptr', ra[1], ladd(ra[2], rb[2], sg))
+                    if ra[0] == 'int' and rb[0] == 'ptr' and sg == 1:
+                        return ('ptr', rb[1], ladd(rb[2], ra[2]))
+                    if ra[0] == 'ptr' and rb[0] == 'ptr' and sg == -1 and ra[1] == rb[1]:
+                        return ('int', None, ladd(ra[2], rb[2], -1))
+                if nm in ('operator++', 'operator--') and ra is not None and ra[0] == 'ptr':
+                    if len(args) == 2:          # postfix form has a dummy int argument
+                        return ra
+                    return ('ptr', ra[1], ladd(ra[2], lconst(1), 1 if nm == 'operator++' else -1))
             return None
         if k == 'MemberExpr':
             t = (x.get('type') or {}).get('qualType', '')
@@ -108,7 +150,7 @@ def build_env(fn, keys, never_written):
             continue
         t = qtype(x).rstrip()
         isref = t.endswith('&') and not t.endswith('&&')
-        isptr = t.endswith('*') or t.endswith('*const') or t.endswith('* const')
+        isptr = t.endswith('*') or t.endswith('*const') or t.endswith('* const') or is_iter_type(t)
         if not (isref or (isptr and x['id'] in never_written)):
             continue
         ini = kids(x)
@@ -156,7 +198,7 @@ class PtrFlow(object):
 
     def _isptr(self, x):
         t = (self._qtype(x) or '').rstrip()
-        return t.endswith('*') or t.endswith('* const') or t.endswith('*const')
+        return t.endswith('*') or t.endswith('* const') or t.endswith('*const') or is_iter_type(t)
 
     def _transfer(self, n, st):
         if n.ast is None or n.kind not in ('stmt', 'cond', 'switch'):
@@ -181,6 +223,31 @@ class PtrFlow(object):
                     cur = self._env(st).get(i)
                     if cur is not None and cur[0] == 'ptr':
                         st[i] = ('ptr', cur[1], ladd(cur[2], lconst(1), 1 if x['opcode'] == '++' else -1))
+                    else:
+                        st.pop(i, None)
+                        self.base.pop(i, None)
+            elif k == 'CXXOperatorCallExpr' and callee(x) and callee(x)[0] == 'fn' and \
+                    callee(x)[1].get('name') in ('operator++', 'operator--', 'operator=', 'operator+=', 'operator-=') and call_args(x):
+                # the same on iterator locals
+                nm = callee(x)[1].get('name')
+                args = call_args(x)
+                t = peel(args[0])
+                i = (t.get('referencedDecl') or {}).get('id') if t.get('kind') == 'DeclRefExpr' else None
+                if i is not None and self._isptr(t):
+                    env = self._env(st)
+                    cur = env.get(i)
+                    new = None
+                    if nm in ('operator++', 'operator--') and cur is not None and cur[0] == 'ptr':
+                        new = ('ptr', cur[1], ladd(cur[2], lconst(1), 1 if nm == 'operator++' else -1))
+                    elif nm == 'operator=' and len(args) == 2:
+                        r = self._norm_rhs(args[1], st)
+                        new = r if r is not None and r[0] == 'ptr' else None
+                    elif nm in ('operator+=', 'operator-=') and len(args) == 2 and cur is not None and cur[0] == 'ptr':
+                        r = self._norm_rhs(args[1], st)
+                        if r is not None and r[0] == 'int':
+                            new = ('ptr', cur[1], ladd(cur[2], r[2], 1 if nm == 'operator+=' else -1))
+                    if new is not None:
+                        st[i] = new
                     else:
                         st.pop(i, None)
                         self.base.pop(i, None)
